@@ -174,6 +174,10 @@ func (e *End) Write(b []byte) (n int, err error) {
 	}
 	first := true
 	for {
+		if first && isClosedChan(e.wdl.wait()) {
+			// like a socket: a write attempted after the write deadline has passed fails at once
+			return 0, os.ErrDeadlineExceeded
+		}
 		e.mu.Lock()
 		switch {
 		case e.closed:
@@ -203,22 +207,27 @@ func (e *End) Write(b []byte) (n int, err error) {
 			e.pend = append(e.pend, pw)
 			cond := e.cond
 			e.mu.Unlock()
+		parked:
 			select {
 			case <-pw.ch:
 			case <-cond:
-				// closed or reset while parked
+				// some state change of this end (data arrived, closed, reset): only a close / reset ends the parked write, anything
+				// else leaves it parked (and committable)
 				e.mu.Lock()
-				for i, x := range e.pend {
-					if x == pw {
-						e.pend = append(e.pend[:i], e.pend[i+1:]...)
-					}
-				}
 				bad := e.closed || e.reset != nil
-				e.mu.Unlock()
 				if bad {
+					for i, x := range e.pend {
+						if x == pw {
+							e.pend = append(e.pend[:i], e.pend[i+1:]...)
+							break
+						}
+					}
+					e.mu.Unlock()
 					return 0, net.ErrClosed
 				}
-				<-pw.ch
+				cond = e.cond
+				e.mu.Unlock()
+				goto parked
 			case <-e.wdl.wait():
 				e.mu.Lock()
 				for i, x := range e.pend {
